@@ -404,6 +404,6 @@ impl Prop for Read {
 
 pub fn run(env: &mut Env) {
     let t = env.thorough();
-    env.run_random::<Write>(if t { 10_000_000 } else { 500_000 });
-    env.run_random::<Read>(if t { 10_000_000 } else { 500_000 });
+    env.run_random::<Write>(if t { 10_000_000 } else { 1_500_000 });
+    env.run_random::<Read>(if t { 10_000_000 } else { 1_500_000 });
 }
